@@ -668,6 +668,7 @@ def run(ctx):
     # text start distribution: generated reader (Gen_TxtReader) vs makePSFromTXT under the sanitizers
     dis += txt_cases.run(ctx, tga, classify, 60 if ctx.quick() else 600)
     dis += program_runs(ctx, tg, tga)
+    dis += restart_runs(ctx, tg, tga)
     ctx.extra["correspondence_disagreements"] = len(dis)
     ctx.trusted.add("sanitizers (gcc 12 ASan+UBSan float-cast-overflow; note: gcc's ASan does not instrument std::complex loads) and valgrind memcheck: search only")
     ctx.trusted.add("lib/scaling_eval.py: double-precision evaluator (CPython floats, struct, libm sqrt/pow) of the spacing_ps expression the translator reads from main() "
@@ -677,6 +678,22 @@ def run(ctx):
                         "everything that is not index arithmetic (library internals, lifetime, uninitialised locals of the text readers) is only searched"]
     coq = kc.downgrade_usm(ctx, coq, dis, validated=ctx.extra.get("kick_tables_compared", 0) > 0)
     conclude_c17(ctx, coq, dis)
+
+
+def restart_runs(ctx, tg, tga):
+    """restarts from results files of 1-, 2-, 3-bunch runs with filling patterns of equal / fewer / more buckets, empty buckets
+    and no filled bucket, with and without impedance (lib/restart_cases.py; model family `restart`: Model/NbSource.v)"""
+    import restart_cases
+    ok, why = vp_coq.extract_model(("restart",), ctx.log)
+    if not ok:
+        ctx.notes.append("restart family: model not available (%s)" % why[-300:])
+        return [dict(case=None, detail="the start-up model (family restart) could not be extracted: %s" % why[-300:],
+                     sig=dict(stage="correspondence", kind="restart-model"))]
+    work = tempfile.mkdtemp(prefix="c17s-")
+    try:
+        return restart_cases.run(ctx, tg, tga, classify, work)
+    finally:
+        shutil.rmtree(work, ignore_errors=True)
 
 
 def conclude_c17(ctx, coq, dis):
@@ -751,6 +768,9 @@ def replay(ctx, rp):
                      ps=[(float.fromhex(a), float.fromhex(b)) for a, b in case["particles"]])
             rc, so, err = bc.run_proc([tga["impl_txt"]], text=txt_cases.impl_text(c, work), env=env, timeout=60)
             classify(ctx, rc, err, pred, case, "replay: makePSFromTXT under ASan/UBSan")
+        elif kind == "program-restart":
+            import restart_cases
+            restart_cases.replay(ctx, case, tg, tga, classify, work)
         elif kind == "program-valgrind":
             p = os.path.join(work, case["file"])
             with open(p, "w") as f:
